@@ -329,6 +329,32 @@ example : outcomeNested Cfg.checked [⟨[2], [.fixed (.idx (.lit 1))]⟩, ⟨[3]
 example : outcomeNested Cfg.checked [⟨[], []⟩, ⟨[3], [.fixed (.idx (.lit 2)), .fixed (.idx (.lit 5))]⟩] none = none := by
   decide
 
+/-- Several references in one equation (stencils such as `x[i+1] - x[i-1]`): generation raises exactly when
+    one of the references, taken on its own, raises — no reference is covered by another one's check. -/
+theorem each_reference_is_checked (cfg : Cfg) (c₁ c₂ : Case) :
+    outcomePair cfg c₁ c₂ = none ↔ outcomePadded cfg c₁ = none ∨ outcomePadded cfg c₂ = none := by
+  unfold outcomePair
+  cases outcomePadded cfg c₁ <;> cases outcomePadded cfg c₂ <;> simp
+
+/-- …and when it succeeds each reference contributes exactly the elements it selects on its own. -/
+theorem each_reference_selects_its_own (cfg : Cfg) (c₁ c₂ : Case) (rows : List (List Pos))
+    (h : outcomePair cfg c₁ c₂ = some rows) :
+    ∃ r₁ r₂, outcomePadded cfg c₁ = some r₁ ∧ outcomePadded cfg c₂ = some r₂ ∧ rows = joinRows r₁ r₂ := by
+  unfold outcomePair at h
+  cases h₁ : outcomePadded cfg c₁ with
+  | none => simp [h₁] at h
+  | some r₁ =>
+    cases h₂ : outcomePadded cfg c₂ with
+    | none => simp [h₁, h₂] at h
+    | some r₂ =>
+      simp only [h₁, h₂, Option.some.injEq] at h
+      exact ⟨r₁, r₂, rfl, rfl, h.symm⟩
+
+example : outcomePair Cfg.checked ⟨.d1 5, .l1 1 1, some (.two (.lit 2) (.lit 4))⟩ ⟨.d1 5, .l1 1 (-1), some (.two (.lit 2) (.lit 4))⟩
+    = some [[(2, 0), (0, 0)], [(3, 0), (1, 0)], [(4, 0), (2, 0)]] := by decide
+example : outcomePair Cfg.checked ⟨.d1 5, .l1 1 1, some (.two (.lit 1) (.lit 4))⟩ ⟨.d1 5, .l1 1 (-1), some (.two (.lit 1) (.lit 4))⟩
+    = none := by decide
+
 /-- A subscript on a scalar always makes generation raise. -/
 theorem scalar_subscript_error (cfg : Cfg) (s : Subs) (l : Option LoopRange) :
     outcome cfg ⟨.scalar, s, l⟩ = none := by
